@@ -2,6 +2,7 @@ package props
 
 import (
 	"fmt"
+	"go/types"
 	"regexp"
 	"sort"
 	"strings"
@@ -100,6 +101,7 @@ func C16(p *core.Program, r *core.Report) {
 		href := `stringutil.CreateAbsoluteURL(dom.GetAttribute($1,"href"),$2)`
 		pr := `url.ParseRequestURI(` + href + `)`
 		paths, _, err := core.EnumerateDecisions(p, gp, core.DecisionOpts{
+			ResolvePhis: true, // the recorded URL may be a merge of a helper's results: render it per path
 			Outcome: func(in ssa.Instruction, c *core.Canon) (string, bool) {
 				if ret, ok := in.(*ssa.Return); ok {
 					return "return " + c.Of(ret.Results[0]), true
@@ -233,7 +235,14 @@ func C16(p *core.Program, r *core.Report) {
 	fp := mustInl(p, r, "Q3", "(*"+paginationPkg+".PageNumberFinder).FindPagination")
 	if fp != nil {
 		var results []string
-		paths, _, err := core.EnumerateDecisions(p, fp, core.DecisionOpts{ResolvePhis: true,
+		// local function values with the shape of a "is this the current page" test
+		var curTests []*ssa.Function
+		for _, cl := range closuresOf(fp) {
+			if sig := cl.Signature; sig.Params().Len() == 1 && sig.Results().Len() == 1 && types.TypeString(sig.Results().At(0).Type(), nil) == "bool" {
+				curTests = append(curTests, cl)
+			}
+		}
+		paths, fpAtoms, err := core.EnumerateDecisions(p, fp, core.DecisionOpts{ResolvePhis: true,
 			Outcome: func(in ssa.Instruction, c *core.Canon) (string, bool) {
 				if _, ok := in.(*ssa.Return); ok {
 					return "return", true
@@ -265,13 +274,31 @@ func C16(p *core.Program, r *core.Report) {
 					}
 					nPrev++
 					okP := false
+					notSame, parseFails, notSameNorm := false, false, false
 					for _, l := range pa.Lits {
-						if strings.Contains(l.Atom, "FindPagination$1(") && strings.Contains(l.Atom, v) && !l.Val {
-							okP = true
+						// the test as a local function value ...
+						for _, cl := range curTests {
+							if strings.Contains(l.Atom, cl.Name()+"(") && strings.Contains(l.Atom, v) && !l.Val {
+								okP = true
+							}
+						}
+						// ... or written out / in an expanded helper: not the page URL as given, and
+						// (not parseable, or not the page URL in normalised spelling)
+						if strings.HasPrefix(l.Atom, v+" == ") && !strings.HasSuffix(l.Atom, `== ""`) && !l.Val {
+							notSame = true
+						}
+						if l.Atom == "url.Parse("+v+")#1 == nil" && !l.Val {
+							parseFails = true
+						}
+						if (strings.HasPrefix(l.Atom, "stringutil.UnescapedString(url.Parse("+v+")#0) == ") || strings.HasSuffix(l.Atom, " == stringutil.UnescapedString(url.Parse("+v+")#0)")) && !l.Val {
+							notSameNorm = true
 						}
 						if l.Atom == v+` == ""` && l.Val {
 							okP = true // the stored value is empty on this path
 						}
+					}
+					if notSame && (parseFails || notSameNorm) {
+						okP = true
 					}
 					if !okP || !strings.HasSuffix(v, ".URL") {
 						badPrev++
@@ -292,22 +319,25 @@ func C16(p *core.Program, r *core.Report) {
 		r.Add("Q3", "PrevPage is a collected page URL that is not the current page", p.Pos(fp.Pos()), badPrev == 0 && nPrev >= 2, fmt.Sprintf("%d non-empty PrevPage stores on %d paths, %d without the is-current-page test", nPrev, len(paths), badPrev), wit...)
 		r.Add("Q3", "NextPage is the detector's NextPagingURL", p.Pos(fp.Pos()), badNext == 0, "")
 		// the current-page test compares normalised spellings
-		if cl := p.Func(core.ExpandKey("(*" + paginationPkg + ".PageNumberFinder).FindPagination$1")); cl != nil {
+		okNorm, descNorm := false, "no normalising comparison found in FindPagination"
+		for _, cl := range curTests {
 			var rets []string
 			for _, ret := range core.Returns(cl) {
 				rets = append(rets, c.Of(ret.Results[0]))
 			}
 			sort.Strings(rets)
-			ok := false
 			for _, s := range rets {
 				if strings.Contains(s, "stringutil.UnescapedString(url.Parse($0)#0) == ") || strings.Contains(s, "== stringutil.UnescapedString(url.Parse($0)#0)") {
-					ok = true
+					okNorm, descNorm = true, strings.Join(rets, " | ")
 				}
 			}
-			r.Add("Q3", "the current page is recognised in any spelling (normalised comparison)", p.Pos(cl.Pos()), ok, strings.Join(rets, " | "))
-		} else {
-			r.Add("Q3", "the current page is recognised in any spelling (normalised comparison)", p.Pos(fp.Pos()), false, "no normalising comparison found in FindPagination")
 		}
+		for a := range fpAtoms {
+			if strings.Contains(a, " == ") && strings.Contains(a, "stringutil.UnescapedString(url.Parse(") && strings.Contains(a, ".URL)#0)") {
+				okNorm, descNorm = true, a
+			}
+		}
+		r.Add("Q3", "the current page is recognised in any spelling (normalised comparison)", p.Pos(fp.Pos()), okNorm, descNorm)
 	}
 	// Apply stores PaginationInfo from the two finders only
 	if ap := mustInl(p, r, "Q3", core.ModPath+".Apply"); ap != nil {
